@@ -100,6 +100,21 @@ func c06Histories() []c06History {
 		{"signals-overlap", func(t string) [][]rig.ExecSpec {
 			return [][]rig.ExecSpec{{withSignals(ex(t, "a", "sig", nil), 2), ex(t, "b", "echo", nil)}, {ex(t, "c", "echo", nil)}}
 		}, false, false},
+		{"await: steps that finish only when their signal has reached them", func(t string) [][]rig.ExecSpec {
+			await := func(run string, n int64) rig.ExecSpec {
+				e := ex(t, run, "sig", map[string]any{"mode": "await", "n": n})
+				e.NoSigCh = false
+				e.Signals = []schema.Input{{RunID: e.RunID, ID: "record", InputData: map[string]any{"v": n}}}
+				return e
+			}
+			return [][]rig.ExecSpec{{await("a", 7)}, {await("b", 8), await("c", 9), ex(t, "d", "echo", nil)}, {await("e", 10)}}
+		}, false, false},
+		{"a signal handler that takes its time, then more work", func(t string) [][]rig.ExecSpec {
+			a := ex(t, "a", "sig", map[string]any{"mode": "gated"})
+			a.NoSigCh = false
+			a.Signals = []schema.Input{{RunID: a.RunID, ID: "record", InputData: map[string]any{"v": int64(rig.SignalSlowValue)}}, {RunID: a.RunID, ID: "record", InputData: map[string]any{"v": int64(2)}}}
+			return [][]rig.ExecSpec{{a}, {ex(t, "b", "echo", nil), ex(t, "c", "sig", nil)}, {ex(t, "d", "echo2", nil)}}
+		}, false, false},
 		{"open-signal-channel", func(t string) [][]rig.ExecSpec {
 			// a signal channel that is passed but never used nor closed by the caller until Close
 			a := ex(t, "a", "sig", nil)
